@@ -11,4 +11,4 @@ export GOFLAGS=-mod=mod GOPROXY=off GOSUMDB=off GOTOOLCHAIN=local
 if [ "${SKIP_TESTS:-0}" != 1 ]; then
   (cd "$D/repo" && go build ./... && go test -vet=off -count=1 ./... >"$D/test.log" 2>&1) && echo "TESTS-PASS" || { echo "TESTS-FAIL"; tail -5 "$D/test.log"; }
 fi
-VERIF_REPO="$D/repo" /verif/scripts/check.sh "$ID" "$TIER" 2>&1 | grep -E "^(VIOLATION|KNOWN|INCONCL|C[0-9]+ )|sig=" | cut -c1-300 | head -${LINES_MAX:-12}
+VERIF_OUT_DIR="$D/out" VERIF_REPO="$D/repo" /verif/scripts/check.sh "$ID" "$TIER" 2>&1 | grep -E "^(VIOLATION|KNOWN|INCONCL|C[0-9]+ )|sig=" | cut -c1-300 | head -${LINES_MAX:-12}
